@@ -35,7 +35,8 @@ def props_for(rel):
     extra = {'include/ufw/binary-format.h': ['C15', 'C13', 'C01'], 'src/crc-16-arc.c': ['C16', 'C08', 'C07'],
              'src/endpoints/core.c': ['C17', 'C13'], 'src/byte-buffer.c': ['C18', 'C17', 'C13', 'C14'],
              'src/registers/core.c': ['C01', 'C02', 'C03', 'C04', 'C05'], 'src/register-protocol.c': ['C06', 'C07', 'C08', 'C09'],
-             'src/variable-length-integer.c': ['C14', 'C13'], 'src/endpoints/buffer.c': ['C17']}
+             'src/variable-length-integer.c': ['C14', 'C13'], 'src/endpoints/buffer.c': ['C17'],
+             'include/ufw/ring-buffer.h': ['C19']}
     out = list(m.get(rel, []))
     for p in extra.get(rel, []):
         if p not in out:
@@ -128,6 +129,47 @@ def gen(rel):
     muts.sort(key=lambda m: (m['start'], m['new']))
     for i, m in enumerate(muts):
         m['id'] = '%s:%d' % (os.path.basename(rel), i)
+    return muts, data
+
+
+def gen_text(rel, lo, hi):
+    """token-level mutants for code that only exists inside macro bodies (lines lo..hi): the AST has no own
+    source ranges for it"""
+    data = open(os.path.join('/repo', rel), 'rb').read()
+    text = data.decode('utf8', 'replace')
+    lines = text.split('\n')
+    off = [0]
+    for l in lines:
+        off.append(off[-1] + len(l.encode()) + 1)
+    tok = re.compile(r'->|<<=|>>=|<<|>>|<=|>=|==|!=|\+\+|--|\+=|-=|&&|\|\||[<>+\-]|\b\d+[uUlL]*\b')
+    muts = []
+    for ln in range(lo - 1, min(hi, len(lines))):
+        l = lines[ln]
+        if l.strip().startswith(('*', '/*', '//', '#include')):
+            continue
+        for m in tok.finditer(l):
+            t = m.group(0)
+            if t in ('->',):
+                continue
+            alts = []
+            if t in REL_SWAP:
+                alts = REL_SWAP[t]
+            elif t == '++':
+                alts = ['--']
+            elif t == '--':
+                alts = ['++']
+            elif re.match(r'\d', t):
+                mm = re.match(r'(\d+)([uUlL]*)', t)
+                v = int(mm.group(1))
+                if v < 1000:
+                    alts = ['%d%s' % (v + 1, mm.group(2))] + (['%d%s' % (v - 1, mm.group(2))] if v > 0 else [])
+            for a in alts:
+                # byte offsets (the file is ASCII in these regions)
+                st = off[ln] + len(l[:m.start()].encode())
+                muts.append({'fn': 'macro@%d' % (ln + 1), 'start': st, 'end': st + len(t.encode()), 'new': a,
+                             'desc': '%s -> %s' % (t, a), 'line': ln + 1})
+    for i, m in enumerate(muts):
+        m['id'] = '%s:t%d' % (os.path.basename(rel), i)
     return muts, data
 
 
@@ -246,7 +288,12 @@ def main():
         workers = [Worker(k) for k in range(j)]
         try:
             for rel in rels:
-                muts, data = gen(rel)
+                if ':' in rel:
+                    rel, rng_ = rel.split(':')
+                    lo_, hi_ = rng_.split('-')
+                    muts, data = gen_text(rel, int(lo_), int(hi_))
+                else:
+                    muts, data = gen(rel)
                 if limit:
                     muts = muts[:limit]
                 props = props_for(rel)
